@@ -1,8 +1,9 @@
 """C06 — results are invariant under reordering and consistent renaming."""
 import copy
 import json
+import os
 
-from .. import c07_gen, dl, engine_tie, gen_dl, lib, prog
+from .. import c07_gen, dl, engine_tie, gen_dl, lib, prog, scc_shapes
 
 PROP = "C06"
 PROP_FILE = "Props/C06.v"
@@ -113,11 +114,68 @@ def gen_cases(tier, seed):
             if jr:
                 inputs = c07_gen.join_repeat_inputs(rng, p, jr)[:2]
         cases.append(dict(id="c06_%d" % i, prog=p, inputs=inputs, pure=pure, variants=variants(rng, p, inputs, pure)))
+    return cases + gen_scc_cases(tier, seed)
+
+
+SCC_OPTS = dict(p_rec=0.6, p_rec_union=0.7, rec_kinds=["lin", "nonlin", "symtrans", "symtrans", "mutual", "mutual"],
+                families=["random", "random", "fanin", "braid", "diamond", "skipchain"])
+
+
+def scc_variants(rng, p, inputs):
+    """rule-ORDER variants of a program with a deep stratum DAG: the same rules with consumers first, shuffled, consumers directly
+    before their last producer, the rules of a relation spread over the text, reversed; one of them also alpha-renamed.  The order
+    in which the strata are evaluated is recomputed by the macro for every variant and must not show in the relations."""
+    ident = (lambda v: v)
+    out = []
+    for st, q in scc_shapes.all_orders(rng, p, 5):
+        inp2 = [{k: rng.sample(v, len(v)) for k, v in inp.items()} for inp in inputs]
+        out.append(("rule order: " + st, dict(rels=q["rels"], rules=q["rules"]), inp2, "i32", None, ident, ident))
+    if out:
+        # the first reordering once more under a renaming that reverses the alphabetical order of the relation names
+        q = out[0][1]
+        names = sorted(n for n, _, _ in q["rels"])
+        ren = {n: "z%02d_%s" % (len(names) - k, n) for k, n in enumerate(names)}
+        rm = lambda r: ren[r]                       # noqa: E731
+        vm = lambda x: "w_" + x                     # noqa: E731
+        q2 = dict(rels=[(rm(n), a, k) for n, a, k in q["rels"]], rules=[rename_rule(r, vm, rm) for r in q["rules"]])
+        out.append((out[0][0] + " + relations renamed in reverse alphabetical order", q2, [{rm(k): v for k, v in inp.items()} for inp in inputs], "i32", None, ident, rm))
+    return out
+
+
+def gen_scc_cases(tier, seed):
+    """base programs with deep / irregular stratum DAGs (gen/scc_shapes.py) whose rule-order variants matter: multi-rule recursive
+    strata feeding one consumer through several rule-level edges, consumers written before their producers, producers of one
+    consumer far apart in the text.  Own random stream."""
+    rng = lib.rng_for(seed, PROP, "scc_shapes")
+    n = 14 if tier == "quick" else 100
+    cases = []
+    for i in range(n):
+        c = scc_shapes.gen_case(rng, SCC_OPTS if i % 3 else None, ninputs=2)
+        if c:
+            p, inputs, _ = c
+            cases.append(dict(id="c06_scc_%d" % i, prog=p, inputs=inputs, pure=True, variants=scc_variants(rng, p, inputs)))
     return cases
 
 
+def load_corpus():
+    """corpus/C06.jsonl: base program + inputs + rule-order variants stored as permutations of the base program's rules"""
+    path = os.path.join(lib.VERIF, "corpus", PROP + ".jsonl")
+    out = []
+    if not os.path.exists(path):
+        return out
+    ident = (lambda v: v)
+    for k, l in enumerate(open(path)):
+        if l.strip():
+            c = scc_shapes.decode_case(json.loads(l), "corpus_%d" % k)
+            p = c["prog"]
+            c["pure"] = True
+            c["variants"] = [(kind, dict(rels=p["rels"], rules=[p["rules"][j] for j in perm]), c["inputs"], "i32", None, ident, ident) for kind, perm in c.get("orders", [])]
+            out.append(c)
+    return out
+
+
 def tie(tier, seed, replay):
-    cases = gen_cases(tier, seed)
+    cases = load_corpus() + gen_cases(tier, seed)
     results = engine_tie.run(PROP, cases, tag="c06")
     nskipped = sum(1 for r in results if r.get("skipped"))
     results = [r for r in results if not r.get("skipped")]
@@ -126,8 +184,15 @@ def tie(tier, seed, replay):
     if not replay:
         from .. import plan_model
         mism += plan_model.check_cases([c for c in cases if not str(c["id"]).startswith("corpus_")], tag="plan_c06")
+    scc_cov = dict(base_programs=0, strata=0, max_strata=0, depth=0, stratum_edges=0, sensitive_edges=0, uneven_fanin=0, double_edge_fanin=0, looping=0)
     for r in results:
         mism += engine_tie.compare_case(r)
+        st = r["case"]["prog"].get("scc", {}).get("stats")
+        if st:
+            scc_cov["base_programs"] += 1
+            scc_cov["max_strata"] = max(scc_cov["max_strata"], st["strata"])
+            for a, b in (("strata", "strata"), ("depth", "depth"), ("stratum_edges", "edges"), ("sensitive_edges", "sensitive"), ("uneven_fanin", "uneven"), ("double_edge_fanin", "double_fanin"), ("looping", "looping")):
+                scc_cov[a] += st[b]
     # the variants: real macro + rustc only; expected = the base program's specification answer, mapped
     jobs, meta = [], {}
     for r in results:
@@ -163,9 +228,9 @@ def tie(tier, seed, replay):
                                      what="variant (%s) of the program computes a different relation %s than the original (mapped through the renaming)" % (kind, name)))
                     break
     return dict(evaluations=sum(len(r["case"]["inputs"]) for r in results) + len(distinct), distinct_nontrivial=len(distinct),
-                rule="random base programs (half without interpreted functions) x 2 inputs, each with 3-5 syntactic variants: permuted rules / declarations / heads / input tuples, swapped independent body clauses, alpha-renamed variables and relations, constants mapped injectively to large i64 and to Strings; every variant through the real macro and rustc; expected = the base program's least model mapped through the renaming; non-trivial/distinct = (variant, input) pairs that produced a result",
+                rule="random base programs (half without interpreted functions) x 2 inputs, each with 3-5 syntactic variants: permuted rules / declarations / heads / input tuples, swapped independent body clauses, alpha-renamed variables and relations, constants mapped injectively to large i64 and to Strings; PLUS base programs with deep / irregular stratum DAGs (gen/scc_shapes.py: 4-13 strata, fan-in of producers at different depths, multi-rule recursive strata feeding a consumer through several rule-level edges) x 2 inputs on which the stratum edges are sensitive, each with 5-6 rule-ORDER variants (consumers first, shuffled, consumer directly before its last producer, rules of a relation spread over the text, reversed, renamed in reverse alphabetical order); every variant through the real macro and rustc; expected = the base program's least model mapped through the renaming; non-trivial/distinct = (variant, input) pairs that produced a result",
                 samples=[dict(base=r["text"], variants=[(v[0], dl.rust_program_text(v[1], v[3], v[4])) for v in r["case"]["variants"]][:3]) for r in results[:2]],
                 distribution=dict(base_programs=len(results), variant_kinds=kinds), mismatches=mism,
                 trusted_base=["gen/props/c06.py variant generator (a wrong variant shows as a false alarm, not a silent pass)", "FRONT hook + plan translation for the base programs; generated crates for all"],
                 assumptions=["the injective constant maps keep values inside the column types"],
-                extra=dict(cases_skipped_model_too_slow=nskipped))
+                extra=dict(cases_skipped_model_too_slow=nskipped, stratum_order_family=scc_cov))
